@@ -34,6 +34,14 @@ func (x *Exec) nowTime() Value {
 	x.inputs = append(x.inputs, inputVar{Name: "now.nsec" + suffix, T: nsec, Kind: "u64"})
 	x.addPC(st.And(st.Cmp(OpUle, st.Const(64, clockMin), sec), st.Cmp(OpUle, sec, st.Const(64, clockMax))))
 	x.addPC(st.Cmp(OpUlt, nsec, st.Const(64, 1000000000)))
+	if p := x.lastNow; p != nil && x.eng.cfg.Params["frozenclock"] == 1 {
+		// instance parameter frozenclock=1 (C13 differential): the clock does not advance during the
+		// run. Later readings are inputs constrained equal to the first one (the native replay reads
+		// them one by one); the value handed to the program is the first reading itself.
+		x.addPC(st.And(st.Eq(p.sec, sec), st.Eq(p.nsec, nsec)))
+		ext := st.Bin(OpBvAdd, p.sec, st.Const(64, unixToInternal))
+		return Struct{fromTerm(p.nsec), fromTerm(ext), (*Value)(nil)}
+	}
 	if p := x.lastNow; p != nil {
 		later := st.Or(st.Cmp(OpUlt, p.sec, sec), st.And(st.Eq(p.sec, sec), st.Cmp(OpUle, p.nsec, nsec)))
 		x.addPC(later)
